@@ -24,6 +24,8 @@ def check_spec(spec, res, runner_name):
     out = run(g, {"c0": spec["start"]}, **kw)
     res.case(repr((spec, runner_name)), nontrivial=runs > 0, sample={"spec": spec, "runner": runner_name, "outcome": out, "expected_body_runs": runs})
     problems = []
+    if spec["sync"] == "signal" and spec.get("emit_from") == "first" and spec["body_len"] > 1:
+        return  # signal not emitted by the LAST body node: outside the property's loop shape; exercised for the armed monitors only
     if out["status"] != "completed":
         problems.append(f"status {out['status']} {out['error']}")
     else:
